@@ -3,62 +3,10 @@ E2 — lifting to the nsqd level (`Nsq.Model.ChanNsqd`): every channel of every 
 channel invariant; acknowledged ids are in the topic queue or were fanned out; a fanned-out id has
 a `fanout` event in every channel that existed when it was published.
 -/
-import Nsq.Proofs.ChanCount
+import Nsq.Proofs.ChanEnv
 import Nsq.Model.ChanNsqd
 namespace Nsq.Proofs.ChanNsqd
 open Nsq.Model.Chan Nsq.Model.ChanNsqd Nsq.Proofs.Chan
-
-/-! ### fan-out events are produced by `put` / `putDeferred` only -/
-
-def fanoutOf (id : Nat) : Ev → Bool := fun e => match e with | .fanout i _ => i == id | _ => false
-
-theorem nFanout_eq (h : List Ev) (id : Nat) : nFanout h id = nEv (fanoutOf id) h := rfl
-
-theorem nonput_nFanout (conf : Conf) (c : Chan) (op : Nsq.Model.Chan.Op) (id : Nat)
-    (hop : ∀ i, op ≠ .put i) (hop2 : ∀ i p, op ≠ .putDeferred i p) :
-    nFanout (Nsq.Model.Chan.step conf c op).1.hist id = nFanout c.hist id := by
-  simp only [nFanout_eq]
-  have hE : ∀ i, fanoutOf id (.ephDrop i) = false := fun _ => rfl
-  cases op with
-  | put i => exact absurd rfl (hop i)
-  | putDeferred i p => exact absurd rfl (hop2 i p)
-  | scanInFlight t => exact foldl_count _ _ (timeoutOne_count _ hE (fun _ _ => rfl)) _ _
-  | scanDeferred t => exact foldl_count _ _ (deferDueOne_count _ hE (fun _ => rfl)) _ _
-  | _ =>
-    simp only [Nsq.Model.Chan.step, doDeliver]
-    repeat' split
-    all_goals first
-      | rfl
-      | (simp [nEv, fanoutOf, finClientPart]; done)
-      | (simp only []; rw [enqueue_count _ hE]; simp [nEv, fanoutOf]; done)
-      | (rename_i hfc; have := (finChanPart_hist hfc).1; simp [finClientPart, this, nEv, fanoutOf]; done)
-
-theorem hasId_imp_fanned {c : Chan} (hi : Inv 0 c) {id : Nat} (h : hasId c.msgs id = true) : nFanout c.hist id ≠ 0 := by
-  obtain ⟨e, he, rfl⟩ := hasId_iff.1 h
-  intro hz
-  have hst := (hi.core.agree e he).1
-  rw [(status_none_iff hi.okh).2 hz] at hst
-  cases hl : e.loc <;> simp [hl, locSt] at hst
-
-/-- a `put` of an id the channel has never seen is accepted and records the fan-out -/
-theorem put_nFanout (conf : Conf) {c : Chan} (hi : Inv 0 c) (id : Nat) (hnew : nFanout c.hist id = 0) (j : Nat) :
-    nFanout (Nsq.Model.Chan.step conf c (.put id)).1.hist j = nFanout c.hist j + (if id = j then 1 else 0) := by
-  have hno : hasId c.msgs id = false := by
-    cases hh : hasId c.msgs id
-    · rfl
-    · exact absurd hnew (hasId_imp_fanned hi hh)
-  simp only [Nsq.Model.Chan.step, hnew, hno, bne_self_eq_false, Bool.or_self, Bool.false_eq_true, ↓reduceIte, nFanout_eq]
-  rw [enqueue_count _ (fun _ => rfl)]
-  simp [nEv, fanoutOf, List.countP_cons]
-
-theorem putDeferred_nFanout (conf : Conf) {c : Chan} (hi : Inv 0 c) (id : Nat) (pri : Int) (hnew : nFanout c.hist id = 0) (j : Nat) :
-    nFanout (Nsq.Model.Chan.step conf c (.putDeferred id pri)).1.hist j = nFanout c.hist j + (if id = j then 1 else 0) := by
-  have hno : hasId c.msgs id = false := by
-    cases hh : hasId c.msgs id
-    · rfl
-    · exact absurd hnew (hasId_imp_fanned hi hh)
-  simp only [Nsq.Model.Chan.step, hnew, hno, bne_self_eq_false, Bool.or_self, Bool.false_eq_true, ↓reduceIte, nFanout_eq]
-  simp [nEv, fanoutOf, List.countP_cons]
 
 /-! ### topic / state invariant -/
 
@@ -74,6 +22,12 @@ structure TInv (nextId : Nat) (t : Topic) : Prop where
   fan : ∀ nc ∈ t.chans, ∀ i ∈ t.pumped, nc.born ≤ i → nFanout nc.ch.hist i ≠ 0
   only : ∀ nc ∈ t.chans, ∀ i, nFanout nc.ch.hist i ≠ 0 → i ∈ t.pumped
   born : ∀ nc ∈ t.chans, nc.born ≤ nextId
+  /- envelopes (C07.4) -/
+  cenv : ∀ nc ∈ t.chans, EnvInv nc.ch
+  cput : ∀ nc ∈ t.chans, ∀ id ev, EEv.put id ev ∈ nc.ch.elog → (id, ev) ∈ t.envlog
+  qenv : ∀ m ∈ t.queue, (m.id, m.env) ∈ t.envlog
+  elid : ∀ p ∈ t.envlog, p.1 ∈ t.acked ∨ p.1 ∈ t.unacked
+  elnodup : (t.envlog.map (·.1)).Nodup
 
 structure NInv (s : State) : Prop where
   topics : ∀ t ∈ s.topics, TInv s.nextId t
@@ -176,30 +130,38 @@ theorem ninv_updT {s : State} (hi : NInv s) (t : Nat) (f : Topic → Topic) (n :
 
 /-- a channel-level step on one channel of a topic, for an operation that is not a fan-out -/
 theorem tinv_updN {n : Nat} {t : Topic} (hi : TInv n t) (conf : Conf) (c : Nat) (op : Nsq.Model.Chan.Op)
-    (hop : ∀ i, op ≠ .put i) (hop2 : ∀ i p, op ≠ .putDeferred i p) :
+    (hop : ∀ i e, op ≠ .put i e) (hop2 : ∀ i p e, op ≠ .putDeferred i p e) :
     TInv n { t with chans := updN t.chans c (fun ch => (Nsq.Model.Chan.step conf ch op).1) } := by
   have hmem : ∀ x ∈ updN t.chans c (fun ch => (Nsq.Model.Chan.step conf ch op).1), ∃ y ∈ t.chans, x.cid = y.cid ∧ x.born = y.born ∧
-      Inv 0 x.ch ∧ ∀ i, nFanout x.ch.hist i = nFanout y.ch.hist i := by
+      Inv 0 x.ch ∧ (∀ i, nFanout x.ch.hist i = nFanout y.ch.hist i) ∧ EnvInv x.ch ∧
+      ∀ id ev, EEv.put id ev ∈ x.ch.elog → EEv.put id ev ∈ y.ch.elog := by
     intro x hx
     obtain ⟨y, hy, rfl⟩ := mem_updN.1 hx
     refine ⟨y, hy, ?_⟩
     by_cases hk : y.cid = c
     · simp only [hk, ↓reduceIte]
-      exact ⟨trivial, trivial, step_inv conf (hi.chans y hy) op, fun i => nonput_nFanout conf y.ch op i hop hop2⟩
+      exact ⟨trivial, trivial, step_inv conf (hi.chans y hy) op, fun i => nonput_nFanout conf y.ch op i hop hop2,
+        step_envInv conf (hi.chans y hy) (hi.cenv y hy) op, fun id ev h => nonput_puts conf y.ch op hop hop2 id ev h⟩
     · simp only [hk, ↓reduceIte]
-      exact ⟨trivial, trivial, hi.chans y hy, fun _ => trivial⟩
+      exact ⟨trivial, trivial, hi.chans y hy, fun _ => trivial, hi.cenv y hy, fun _ _ h => h⟩
   exact {
+    cenv := fun x hx => let ⟨_, _, _, _, _, _, h, _⟩ := hmem x hx; h
+    cput := by
+      intro x hx id ev hp
+      obtain ⟨y, hy, _, _, _, _, _, hsub⟩ := hmem x hx
+      exact hi.cput y hy id ev (hsub id ev hp)
+    qenv := hi.qenv, elid := hi.elid, elnodup := hi.elnodup
     chans := fun x hx => let ⟨_, _, _, _, h, _⟩ := hmem x hx; h
     cnodup := by simp only [map_cid_updN]; exact hi.cnodup
     pfresh := by simp only [map_cid_updN]; exact hi.pfresh
     qnodup := hi.qnodup, ackq := hi.ackq, anodup := hi.anodup, count := hi.count, lt := hi.lt
     fan := by
       intro x hx i hip hb
-      obtain ⟨y, hy, _, hborn, _, hf⟩ := hmem x hx
+      obtain ⟨y, hy, _, hborn, _, hf, _⟩ := hmem x hx
       rw [hf i]; exact hi.fan y hy i hip (hborn ▸ hb)
     only := by
       intro x hx i hne
-      obtain ⟨y, hy, _, _, _, hf⟩ := hmem x hx
+      obtain ⟨y, hy, _, _, _, hf, _⟩ := hmem x hx
       rw [hf i] at hne; exact hi.only y hy i hne
     born := by
       intro x hx
@@ -211,7 +173,8 @@ theorem tinv_updN {n : Nat} {t : Topic} (hi : TInv n t) (conf : Conf) (c : Nat) 
 
 theorem tinv_empty (n t memq : Nat) : TInv n { tid := t, memCap := memq } :=
   { chans := by simp, cnodup := by simp, pfresh := rfl, qnodup := by simp, ackq := by simp, anodup := by simp
-    count := rfl, lt := by simp, fan := by simp, only := by simp, born := by simp }
+    count := rfl, lt := by simp, fan := by simp, only := by simp, born := by simp
+    cenv := by simp, cput := by simp, qenv := by simp, elid := by simp, elnodup := by simp }
 
 theorem ninv_ensureTopic {s : State} (hi : NInv s) (t : Nat) : NInv (ensureTopic s t) := by
   unfold ensureTopic
@@ -301,12 +264,25 @@ theorem ninv_doCreateChan {s : State} (hi : NInv s) (t c : Nat) (eph : Bool) : N
           simp only [List.mem_append, List.mem_singleton] at hnc
           rcases hnc with hnc | rfl
           · exact hy'.born nc hnc
-          · exact Nat.le_refl _ }
+          · exact Nat.le_refl _
+        cenv := by
+          intro nc hnc
+          simp only [List.mem_append, List.mem_singleton] at hnc
+          rcases hnc with hnc | rfl
+          · exact hy'.cenv nc hnc
+          · exact envInv_init _ _
+        cput := by
+          intro nc hnc id ev hp
+          simp only [List.mem_append, List.mem_singleton] at hnc
+          rcases hnc with hnc | rfl
+          · exact hy'.cput nc hnc id ev hp
+          · simp [newChan] at hp
+        qenv := hy'.qenv, elid := hy'.elid, elnodup := hy'.elnodup }
 
 
 /-- a channel-level step applied through `chanStep` (not a fan-out) keeps `NInv` -/
 theorem ninv_chanStep {s : State} (hi : NInv s) (t c : Nat) (op : Nsq.Model.Chan.Op)
-    (hop : ∀ i, op ≠ .put i) (hop2 : ∀ i p, op ≠ .putDeferred i p) : NInv (chanStep s t c op).1 := by
+    (hop : ∀ i e, op ≠ .put i e) (hop2 : ∀ i p e, op ≠ .putDeferred i p e) : NInv (chanStep s t c op).1 := by
   unfold chanStep
   split
   · exact hi
@@ -362,7 +338,10 @@ theorem tinv_reap {n : Nat} {t : Topic} (hi : TInv n t) (c : Nat) : TInv n (reap
         qnodup := hi.qnodup, ackq := hi.ackq, anodup := hi.anodup, count := hi.count, lt := hi.lt
         fan := fun nc hnc => hi.fan nc (List.mem_filter.1 hnc).1
         only := fun nc hnc => hi.only nc (List.mem_filter.1 hnc).1
-        born := fun nc hnc => hi.born nc (List.mem_filter.1 hnc).1 }
+        born := fun nc hnc => hi.born nc (List.mem_filter.1 hnc).1
+        cenv := fun nc hnc => hi.cenv nc (List.mem_filter.1 hnc).1
+        cput := fun nc hnc => hi.cput nc (List.mem_filter.1 hnc).1
+        qenv := hi.qenv, elid := hi.elid, elnodup := hi.elnodup }
     · exact hi
   · exact hi
 
@@ -373,7 +352,7 @@ theorem ninv_reap {s : State} (hi : NInv s) (t c : Nat) (subs : List Sub) :
   exact this
 
 theorem ninv_connStep {s : State} (hi : NInv s) (k : Nat) (op : Nsq.Model.Chan.Op)
-    (hop : ∀ i, op ≠ .put i) (hop2 : ∀ i p, op ≠ .putDeferred i p) : NInv (connStep s k op).1 := by
+    (hop : ∀ i e, op ≠ .put i e) (hop2 : ∀ i p e, op ≠ .putDeferred i p e) : NInv (connStep s k op).1 := by
   unfold connStep
   split
   · exact hi
@@ -404,31 +383,56 @@ theorem length_idsFrom (a n : Nat) : (idsFrom a n).length = n := by
   | zero => rfl
   | succ n ih => simp [idsFrom, ih]
 
-theorem putT_spec (t : Topic) (id sz d : Nat) :
-    ∃ q, putT t id sz d = { t with queue := q } ∧ q.map (·.id) = id :: t.queue.map (·.id) := by
+theorem putT_spec (t : Topic) (id sz d : Nat) (env : Env) :
+    ∃ q, putT t id sz d env = { t with queue := q, envlog := (id, env) :: t.envlog } ∧
+      q.map (·.id) = id :: t.queue.map (·.id) ∧ ∀ m ∈ q, m ∈ t.queue ∨ (m.id = id ∧ m.env = env) := by
   unfold putT
-  exact ⟨_, rfl, by simp⟩
+  refine ⟨_, rfl, by simp, ?_⟩
+  intro m hm
+  simp only [List.mem_cons] at hm
+  rcases hm with rfl | hm
+  · exact Or.inr ⟨rfl, rfl⟩
+  · exact Or.inl hm
 
-theorem putMany_spec (t : Topic) (id : Nat) (sizes : List Nat) :
-    ∃ q, putMany t id sizes = { t with queue := q } ∧
-      q.map (·.id) = (idsFrom id sizes.length).reverse ++ t.queue.map (·.id) := by
-  induction sizes generalizing t id with
-  | nil => exact ⟨t.queue, rfl, by simp [idsFrom]⟩
+theorem putMany_spec (t : Topic) (id : Nat) (sizes : List Nat) (envs : List Env) :
+    ∃ q el, putMany t id sizes envs = { t with queue := q, envlog := el } ∧
+      q.map (·.id) = (idsFrom id sizes.length).reverse ++ t.queue.map (·.id) ∧
+      el.map (·.1) = (idsFrom id sizes.length).reverse ++ t.envlog.map (·.1) ∧
+      (∀ p ∈ t.envlog, p ∈ el) ∧ (∀ m ∈ q, m ∈ t.queue ∨ (m.id, m.env) ∈ el) := by
+  induction sizes generalizing t id envs with
+  | nil => exact ⟨t.queue, t.envlog, rfl, by simp [idsFrom], by simp [idsFrom], fun _ h => h, fun _ h => Or.inl h⟩
   | cons sz rest ih =>
-    obtain ⟨q1, h1, hq1⟩ := putT_spec t id sz 0
-    obtain ⟨q2, h2, hq2⟩ := ih (putT t id sz 0) (id + 1)
-    refine ⟨q2, ?_, ?_⟩
+    obtain ⟨q1, h1, hq1, hm1⟩ := putT_spec t id sz 0 (envs.headD {})
+    obtain ⟨q2, el2, h2, hq2, hel2, hold2, hm2⟩ := ih (putT t id sz 0 (envs.headD {})) (id + 1) envs.tail
+    refine ⟨q2, el2, ?_, ?_, ?_, ?_, ?_⟩
     · simp only [putMany]; rw [h2, h1]
     · rw [hq2, h1]; simp [idsFrom, hq1]
+    · rw [hel2, h1]; simp [idsFrom]
+    · intro p hp
+      apply hold2
+      rw [h1]
+      exact List.mem_cons_of_mem _ hp
+    · intro m hm
+      rcases hm2 m hm with h | h
+      · rw [h1] at h
+        rcases hm1 m h with h' | ⟨h', h''⟩
+        · exact Or.inl h'
+        · right
+          apply hold2
+          rw [h1, ← h', ← h'']
+          exact List.mem_cons_self
+      · exact Or.inr h
 
 /-- new ids (all ≥ the old id counter) enter the topic queue and the acknowledged (or, for a
 failed MPUB, the enqueued-but-unacknowledged) list -/
 theorem tinv_publish {n m : Nat} {t : Topic} (hi : TInv n t) (ids : List Nat) (hnd : ids.Nodup)
     (hr : ∀ i ∈ ids, n ≤ i ∧ i < m) (hnm : n ≤ m) (q' : List TMsg)
-    (hq : q'.map (·.id) = ids ++ t.queue.map (·.id)) (acked' unacked' : List Nat) (mc mb : Nat)
+    (hq : q'.map (·.id) = ids ++ t.queue.map (·.id)) (el' : List (Nat × Env))
+    (hel : el'.map (·.1) = ids ++ t.envlog.map (·.1)) (hold' : ∀ p ∈ t.envlog, p ∈ el')
+    (hqe : ∀ m ∈ q', m ∈ t.queue ∨ (m.id, m.env) ∈ el') (acked' unacked' : List Nat) (mc mb : Nat)
     (hau : (acked' = ids ++ t.acked ∧ unacked' = t.unacked) ∨ (acked' = t.acked ∧ unacked' = ids ++ t.unacked))
     (hmc : mc = t.msgCount + ids.length) :
-    TInv m { t with queue := q', msgCount := mc, msgBytes := mb, acked := acked', unacked := unacked' } := by
+    TInv m { t with queue := q', msgCount := mc, msgBytes := mb, acked := acked', unacked := unacked', envlog := el' } := by
   have hold : ∀ i, (i ∈ t.acked ∨ i ∈ t.unacked) → i < n := hi.lt
   have hmemau : ∀ i, (i ∈ acked' ∨ i ∈ unacked') ↔ (i ∈ ids ∨ i ∈ t.acked ∨ i ∈ t.unacked) := by
     intro i
@@ -498,29 +502,61 @@ theorem tinv_publish {n m : Nat} {t : Topic} (hi : TInv n t) (ids : List Nat) (h
       · exact (hr i h).2
       · exact Nat.lt_of_lt_of_le (hold i h) hnm
     fan := hi.fan, only := hi.only
-    born := fun nc hnc => Nat.le_trans (hi.born nc hnc) hnm }
+    born := fun nc hnc => Nat.le_trans (hi.born nc hnc) hnm
+    cenv := hi.cenv
+    cput := fun nc hnc id ev hp => hold' _ (hi.cput nc hnc id ev hp)
+    qenv := by
+      intro x hx
+      rcases hqe x hx with h | h
+      · exact hold' _ (hi.qenv x h)
+      · exact h
+    elid := by
+      intro p hp
+      have : p.1 ∈ el'.map (·.1) := List.mem_map.2 ⟨p, hp, rfl⟩
+      rw [hel, List.mem_append] at this
+      apply (hmemau p.1).2
+      rcases this with h | h
+      · exact Or.inl h
+      · obtain ⟨p0, hp0, he0⟩ := List.mem_map.1 h
+        rw [← he0]
+        exact Or.inr (hi.elid p0 hp0)
+    elnodup := by
+      rw [hel, List.nodup_append]
+      refine ⟨hnd, hi.elnodup, ?_⟩
+      intro a ha b hb hab
+      subst hab
+      obtain ⟨p0, hp0, he0⟩ := List.mem_map.1 hb
+      have h1 := (hr a ha).1
+      have h2 := hold p0.1 (hi.elid p0 hp0)
+      rw [he0] at h2
+      omega }
 
 
 /-! ### fan-out -/
 
 /-- what `fanOne` does to one channel of the topic, given that the id is new to it -/
 theorem fanOne_spec (conf : NConf) (pump : List Nat) (m : TMsg) (kept : Bool) (pris : List (Nat × Int)) {nc : NChan}
-    (hi : Inv 0 nc.ch) (hnew : nFanout nc.ch.hist m.id = 0) :
+    (hi : Inv 0 nc.ch) (hnew : nFanout nc.ch.hist m.id = 0) (he : EnvInv nc.ch) :
     (fanOne conf pump m kept pris nc).cid = nc.cid ∧ (fanOne conf pump m kept pris nc).born = nc.born ∧
     Inv 0 (fanOne conf pump m kept pris nc).ch ∧
-    ∀ j, nFanout (fanOne conf pump m kept pris nc).ch.hist j
-      = nFanout nc.ch.hist j + (if pump.contains nc.cid ∧ m.id = j then 1 else 0) := by
+    (∀ j, nFanout (fanOne conf pump m kept pris nc).ch.hist j
+      = nFanout nc.ch.hist j + (if pump.contains nc.cid ∧ m.id = j then 1 else 0)) ∧
+    EnvInv (fanOne conf pump m kept pris nc).ch ∧
+    ∀ i ev, EEv.put i ev ∈ (fanOne conf pump m kept pris nc).ch.elog → EEv.put i ev ∈ nc.ch.elog ∨ (i = m.id ∧ ev = m.env) := by
   unfold fanOne
   by_cases hp : pump.contains nc.cid = true
   · simp only [hp, Bool.not_true, Bool.false_eq_true, ↓reduceIte, true_and]
     split
     · split
-      · exact ⟨rfl, rfl, step_inv _ hi _, fun j => putDeferred_nFanout _ hi _ _ hnew j⟩
-      · exact ⟨rfl, rfl, step_inv _ hi _, fun j => putDeferred_nFanout _ hi _ _ hnew j⟩
-    · exact ⟨rfl, rfl, step_inv _ hi _, fun j => put_nFanout _ hi _ hnew j⟩
+      · exact ⟨rfl, rfl, step_inv _ hi _, fun j => putDeferred_nFanout _ hi _ _ _ hnew j, step_envInv _ hi he _,
+          fun i ev h => putDeferred_puts _ _ _ _ _ i ev h⟩
+      · exact ⟨rfl, rfl, step_inv _ hi _, fun j => putDeferred_nFanout _ hi _ _ _ hnew j, step_envInv _ hi he _,
+          fun i ev h => putDeferred_puts _ _ _ _ _ i ev h⟩
+    · exact ⟨rfl, rfl, step_inv _ hi _, fun j => put_nFanout _ hi _ _ hnew j, step_envInv _ hi he _,
+        fun i ev h => put_puts _ _ _ _ i ev h⟩
   · have hp' : pump.contains nc.cid = false := by simpa using hp
     simp only [hp', Bool.not_false, ↓reduceIte]
-    exact ⟨trivial, trivial, hi, fun _ => by simp⟩
+    exact ⟨trivial, trivial, hi, fun _ => by simp, he, fun _ _ h => Or.inl h⟩
 
 theorem mem_filter_ne_id {q : List TMsg} {id i : Nat} :
     i ∈ (q.filter (fun x => x.id != id)).map (·.id) ↔ i ∈ q.map (·.id) ∧ i ≠ id := by
@@ -543,7 +579,7 @@ theorem tinv_pump {n : Nat} {t : Topic} (hi : TInv n t) (conf : NConf) {m : TMsg
     apply Classical.byContradiction
     intro hne
     exact hnotp (hi.only nc hnc m.id hne)
-  have hspec := fun nc (hnc : nc ∈ t.chans) => fanOne_spec conf t.pump m kept pris (hi.chans nc hnc) (hnew nc hnc)
+  have hspec := fun nc (hnc : nc ∈ t.chans) => fanOne_spec conf t.pump m kept pris (hi.chans nc hnc) (hnew nc hnc) (hi.cenv nc hnc)
   have hcids : (t.chans.map (fanOne conf t.pump m kept pris)).map (·.cid) = t.chans.map (·.cid) := by
     rw [List.map_map]
     apply List.map_congr_left
@@ -588,7 +624,7 @@ theorem tinv_pump {n : Nat} {t : Topic} (hi : TInv n t) (conf : NConf) {m : TMsg
     fan := by
       intro x hx i hip hb
       obtain ⟨nc, hnc, rfl⟩ := List.mem_map.1 hx
-      obtain ⟨_, hborn, _, hf⟩ := hspec nc hnc
+      obtain ⟨_, hborn, _, hf, _⟩ := hspec nc hnc
       rw [hf i]
       simp only [List.mem_cons] at hip
       rcases hip with rfl | hip
@@ -601,7 +637,7 @@ theorem tinv_pump {n : Nat} {t : Topic} (hi : TInv n t) (conf : NConf) {m : TMsg
     only := by
       intro x hx i hne
       obtain ⟨nc, hnc, rfl⟩ := List.mem_map.1 hx
-      obtain ⟨_, _, _, hf⟩ := hspec nc hnc
+      obtain ⟨_, _, _, hf, _⟩ := hspec nc hnc
       rw [hf i] at hne
       simp only [List.mem_cons]
       by_cases he : m.id = i
@@ -614,7 +650,19 @@ theorem tinv_pump {n : Nat} {t : Topic} (hi : TInv n t) (conf : NConf) {m : TMsg
       intro x hx
       obtain ⟨nc, hnc, rfl⟩ := List.mem_map.1 hx
       rw [(hspec nc hnc).2.1]
-      exact hi.born nc hnc }
+      exact hi.born nc hnc
+    cenv := by
+      intro x hx
+      obtain ⟨nc, hnc, rfl⟩ := List.mem_map.1 hx
+      exact (hspec nc hnc).2.2.2.2.1
+    cput := by
+      intro x hx i ev hp
+      obtain ⟨nc, hnc, rfl⟩ := List.mem_map.1 hx
+      rcases (hspec nc hnc).2.2.2.2.2 i ev hp with h | ⟨h1, h2⟩
+      · exact hi.cput nc hnc i ev h
+      · rw [h1, h2]; exact hi.qenv m hm
+    qenv := fun x hx => hi.qenv x (List.mem_filter.1 hx).1
+    elid := hi.elid, elnodup := hi.elnodup }
 
 /-- the API-level operations: everything except the two halves of a split channel creation -/
 def Op.api : Nsq.Model.ChanNsqd.Op → Bool
@@ -644,7 +692,7 @@ theorem nstep_inv {s : State} (hi : NInv s) (op : Nsq.Model.ChanNsqd.Op) (hapi :
     split
     · exact hi
     · have h1 := ninv_doCreateChan hi t c e
-      have h2 := ninv_chanStep h1 t c (.addClient k mt sm) (fun _ h => by cases h) (fun _ _ h => by cases h)
+      have h2 := ninv_chanStep h1 t c (.addClient k mt sm) (fun _ _ h => by cases h) (fun _ _ _ h => by cases h)
       split
       · exact ninv_subs h2 _ _
       · exact h1
@@ -653,31 +701,31 @@ theorem nstep_inv {s : State} (hi : NInv s) (op : Nsq.Model.ChanNsqd.Op) (hapi :
     split
     · exact hi
     · rename_i sb _
-      have h1 := ninv_chanStep hi sb.tid sb.cid (.removeClient k) (fun _ h => by cases h) (fun _ _ h => by cases h)
+      have h1 := ninv_chanStep hi sb.tid sb.cid (.removeClient k) (fun _ _ h => by cases h) (fun _ _ _ h => by cases h)
       exact ninv_reap h1 _ _ _
   | rdy k n =>
     simp only [Nsq.Model.ChanNsqd.step]
     split
-    · exact ninv_connStep hi k _ (fun _ h => by cases h) (fun _ _ h => by cases h)
+    · exact ninv_connStep hi k _ (fun _ _ h => by cases h) (fun _ _ _ h => by cases h)
     · split
       · exact hi
-      · exact ninv_ite _ hi (ninv_connStep hi k _ (fun _ h => by cases h) (fun _ _ h => by cases h))
-  | cls k => exact ninv_connStep hi k _ (fun _ h => by cases h) (fun _ _ h => by cases h)
-  | deliver k id now => exact ninv_connStep hi k _ (fun _ h => by cases h) (fun _ _ h => by cases h)
-  | sampleDrop k id => exact ninv_connStep hi k _ (fun _ h => by cases h) (fun _ _ h => by cases h)
-  | fin k id => exact ninv_connStep hi k _ (fun _ h => by cases h) (fun _ _ h => by cases h)
-  | finChan k id => exact ninv_connStep hi k _ (fun _ h => by cases h) (fun _ _ h => by cases h)
-  | finClient k => exact ninv_connStep hi k _ (fun _ h => by cases h) (fun _ _ h => by cases h)
-  | guard k => exact ninv_connStep hi k _ (fun _ h => by cases h) (fun _ _ h => by cases h)
-  | deliverArmed k id now => exact ninv_connStep hi k _ (fun _ h => by cases h) (fun _ _ h => by cases h)
-  | req k id d now => exact ninv_connStep hi k _ (fun _ h => by cases h) (fun _ _ h => by cases h)
-  | touch k id now => exact ninv_connStep hi k _ (fun _ h => by cases h) (fun _ _ h => by cases h)
-  | scanInFlight t c tm => exact ninv_chanStep hi t c _ (fun _ h => by cases h) (fun _ _ h => by cases h)
-  | scanDeferred t c tm => exact ninv_chanStep hi t c _ (fun _ h => by cases h) (fun _ _ h => by cases h)
-  | pauseChan t c => exact ninv_chanStep hi t c _ (fun _ h => by cases h) (fun _ _ h => by cases h)
-  | unpauseChan t c => exact ninv_chanStep hi t c _ (fun _ h => by cases h) (fun _ _ h => by cases h)
-  | emptyChan t c => exact ninv_chanStep hi t c _ (fun _ h => by cases h) (fun _ _ h => by cases h)
-  | resplit t c m d => exact ninv_chanStep hi t c _ (fun _ h => by cases h) (fun _ _ h => by cases h)
+      · exact ninv_ite _ hi (ninv_connStep hi k _ (fun _ _ h => by cases h) (fun _ _ _ h => by cases h))
+  | cls k => exact ninv_connStep hi k _ (fun _ _ h => by cases h) (fun _ _ _ h => by cases h)
+  | deliver k id now => exact ninv_connStep hi k _ (fun _ _ h => by cases h) (fun _ _ _ h => by cases h)
+  | sampleDrop k id => exact ninv_connStep hi k _ (fun _ _ h => by cases h) (fun _ _ _ h => by cases h)
+  | fin k id => exact ninv_connStep hi k _ (fun _ _ h => by cases h) (fun _ _ _ h => by cases h)
+  | finChan k id => exact ninv_connStep hi k _ (fun _ _ h => by cases h) (fun _ _ _ h => by cases h)
+  | finClient k => exact ninv_connStep hi k _ (fun _ _ h => by cases h) (fun _ _ _ h => by cases h)
+  | guard k => exact ninv_connStep hi k _ (fun _ _ h => by cases h) (fun _ _ _ h => by cases h)
+  | deliverArmed k id now => exact ninv_connStep hi k _ (fun _ _ h => by cases h) (fun _ _ _ h => by cases h)
+  | req k id d now => exact ninv_connStep hi k _ (fun _ _ h => by cases h) (fun _ _ _ h => by cases h)
+  | touch k id now => exact ninv_connStep hi k _ (fun _ _ h => by cases h) (fun _ _ _ h => by cases h)
+  | scanInFlight t c tm => exact ninv_chanStep hi t c _ (fun _ _ h => by cases h) (fun _ _ _ h => by cases h)
+  | scanDeferred t c tm => exact ninv_chanStep hi t c _ (fun _ _ h => by cases h) (fun _ _ _ h => by cases h)
+  | pauseChan t c => exact ninv_chanStep hi t c _ (fun _ _ h => by cases h) (fun _ _ _ h => by cases h)
+  | unpauseChan t c => exact ninv_chanStep hi t c _ (fun _ _ h => by cases h) (fun _ _ _ h => by cases h)
+  | emptyChan t c => exact ninv_chanStep hi t c _ (fun _ _ h => by cases h) (fun _ _ _ h => by cases h)
+  | resplit t c m d => exact ninv_chanStep hi t c _ (fun _ _ h => by cases h) (fun _ _ _ h => by cases h)
   | pauseTopic t =>
     simp only [Nsq.Model.ChanNsqd.step]
     split
@@ -708,41 +756,51 @@ theorem nstep_inv {s : State} (hi : NInv s) (op : Nsq.Model.ChanNsqd.Op) (hapi :
             have : y = tp := eq_of_tid_eq hi.tnodup hy htp (hyt.trans htt.symm)
             subst this
             exact ⟨rfl, tinv_pump (hi.topics y hy) s.conf hm1 kept pris⟩
-  | pub t sz =>
+  | pub t sz env =>
     simp only [Nsq.Model.ChanNsqd.step]
     have h1 := ninv_ensureTopic hi t
     have hn := (ensureTopic_nextId s t).1
     refine ninv_updT h1 t _ _ (Nat.le_succ _) ?_ _ _
     intro y hy _
-    obtain ⟨q, hq1, hq2⟩ := putT_spec y (ensureTopic s t).nextId sz 0
+    obtain ⟨q, hq1, hq2, hq3⟩ := putT_spec y (ensureTopic s t).nextId sz 0 env
     refine ⟨by rw [hq1], ?_⟩
     rw [hq1]
     exact tinv_publish (h1.topics y hy) [(ensureTopic s t).nextId] (by simp) (by simp) (Nat.le_succ _) q (by simpa using hq2)
+      _ (by simp) (fun p hp => List.mem_cons_of_mem _ hp)
+      (fun x hx => by
+        rcases hq3 x hx with h | ⟨h, h'⟩
+        · exact Or.inl h
+        · right; rw [h, h']; exact List.mem_cons_self)
       _ _ _ _ (Or.inl ⟨rfl, rfl⟩) (by simp)
-  | dpub t sz d =>
+  | dpub t sz d env =>
     simp only [Nsq.Model.ChanNsqd.step]
     have h1 := ninv_ensureTopic hi t
     refine ninv_updT h1 t _ _ (Nat.le_succ _) ?_ _ _
     intro y hy _
-    obtain ⟨q, hq1, hq2⟩ := putT_spec y (ensureTopic s t).nextId sz d
+    obtain ⟨q, hq1, hq2, hq3⟩ := putT_spec y (ensureTopic s t).nextId sz d env
     refine ⟨by rw [hq1], ?_⟩
     rw [hq1]
     exact tinv_publish (h1.topics y hy) [(ensureTopic s t).nextId] (by simp) (by simp) (Nat.le_succ _) q (by simpa using hq2)
+      _ (by simp) (fun p hp => List.mem_cons_of_mem _ hp)
+      (fun x hx => by
+        rcases hq3 x hx with h | ⟨h, h'⟩
+        · exact Or.inl h
+        · right; rw [h, h']; exact List.mem_cons_self)
       _ _ _ _ (Or.inl ⟨rfl, rfl⟩) (by simp)
-  | mpub t sizes =>
+  | mpub t sizes envs =>
     simp only [Nsq.Model.ChanNsqd.step]
     have h1 := ninv_ensureTopic hi t
     refine ninv_updT h1 t _ _ (Nat.le_add_right _ _) ?_ _ _
     intro y hy _
-    obtain ⟨q, hq1, hq2⟩ := putMany_spec y (ensureTopic s t).nextId sizes
+    obtain ⟨q, el, hq1, hq2, hel, hold, hqe⟩ := putMany_spec y (ensureTopic s t).nextId sizes envs
     refine ⟨by rw [hq1], ?_⟩
     rw [hq1]
     refine tinv_publish (h1.topics y hy) (idsFrom (ensureTopic s t).nextId sizes.length).reverse
-      ((List.reverse_perm _).nodup_iff.2 (idsFrom_nodup _ _)) ?_ (Nat.le_add_right _ _) q hq2 _ _ _ _ (Or.inl ⟨rfl, rfl⟩)
+      ((List.reverse_perm _).nodup_iff.2 (idsFrom_nodup _ _)) ?_ (Nat.le_add_right _ _) q hq2 el hel hold hqe _ _ _ _ (Or.inl ⟨rfl, rfl⟩)
       (by simp [length_idsFrom])
     intro i hi'
     exact mem_idsFrom.1 (List.mem_reverse.1 hi')
-  | mpubFail t sizes j =>
+  | mpubFail t sizes j envs =>
     simp only [Nsq.Model.ChanNsqd.step]
     have h1 := ninv_ensureTopic hi t
     split
@@ -750,13 +808,13 @@ theorem nstep_inv {s : State} (hi : NInv s) (op : Nsq.Model.ChanNsqd.Op) (hapi :
     · rename_i hj
       refine ninv_updT h1 t _ _ (Nat.le_add_right _ _) ?_ _ _
       intro y hy _
-      obtain ⟨q, hq1, hq2⟩ := putMany_spec y (ensureTopic s t).nextId (sizes.take j)
+      obtain ⟨q, el, hq1, hq2, hel, hold, hqe⟩ := putMany_spec y (ensureTopic s t).nextId (sizes.take j) envs
       have hlen : (sizes.take j).length = j := by simp; omega
       refine ⟨by rw [hq1], ?_⟩
       rw [hq1]
       refine tinv_publish (h1.topics y hy) (idsFrom (ensureTopic s t).nextId j).reverse
-        ((List.reverse_perm _).nodup_iff.2 (idsFrom_nodup _ _)) ?_ (Nat.le_add_right _ _) q (by rw [hq2, hlen]) _ _ _ _ (Or.inr ⟨rfl, rfl⟩)
-        (by simp [length_idsFrom])
+        ((List.reverse_perm _).nodup_iff.2 (idsFrom_nodup _ _)) ?_ (Nat.le_add_right _ _) q (by rw [hq2, hlen]) el (by rw [hel, hlen]) hold hqe
+        _ _ _ _ (Or.inr ⟨rfl, rfl⟩) (by simp [length_idsFrom])
       intro i hi'
       have := mem_idsFrom.1 (List.mem_reverse.1 hi')
       omega
@@ -777,5 +835,18 @@ theorem ensureTopic_has (s : State) (t : Nat) : ∃ y ∈ (ensureTopic s t).topi
     exact ⟨tp, (findT_some hf).1, (findT_some hf).2⟩
   · exact ⟨{ tid := t, memCap := s.conf.memq }, by simp, rfl⟩
 
+
+theorem envlog_functional {l : List (Nat × Env)} (hn : (l.map (·.1)).Nodup) {id : Nat} {e1 e2 : Env}
+    (h1 : (id, e1) ∈ l) (h2 : (id, e2) ∈ l) : e1 = e2 := by
+  induction l with
+  | nil => cases h1
+  | cons p l ih =>
+    simp only [List.map_cons, List.nodup_cons, List.mem_map, not_exists, not_and] at hn
+    simp only [List.mem_cons] at h1 h2
+    rcases h1 with h1 | h1 <;> rcases h2 with h2 | h2
+    · rw [← h1] at h2; exact (Prod.mk.inj h2).2.symm
+    · exact absurd (by rw [← h1]) (hn.1 (id, e2) h2)
+    · exact absurd (by rw [← h2]) (hn.1 (id, e1) h1)
+    · exact ih hn.2 h1 h2
 
 end Nsq.Proofs.ChanNsqd
